@@ -46,23 +46,20 @@ func Group(services *fun.Iterator[*Service]) *Service {
 			}
 			wg.Wait(ctx)
 			ec.Add(waiters.Close())
-			return nil
-		},
-		Cleanup: func() error {
-			defer erc.Recover(ec)
-			// we're calling each service's wait() here, which
-			// might be a recipe for deadlocks, but it gives us
-			// the chance to collect all errors from the contained
-			// services. This will cause our "group service" to
-			// have the same semantics as a single service, however.
+
+			// returning from Run cancels ctx, which every member
+			// was started with: stay until all of them have
+			// returned. We're calling each service's wait() here,
+			// which gives us the chance to collect all errors from
+			// the contained services, and gives the "group service"
+			// the same semantics as a single service.
 			iter := waiters.Iterator()
 
 			// because we know that the implementation of the
-			// waiters iterator won't block in this context, it's
-			// safe to call it with a background context, though
-			// it's worth being careful here
-			ctx := context.Background()
-			for iter.Next(ctx) {
+			// waiters iterator won't block on a closed queue, it's
+			// safe to call it with a background context.
+			bctx := context.Background()
+			for iter.Next(bctx) {
 				wg.Add(1)
 				go func(wait func() error) {
 					defer erc.Recover(ec)
@@ -72,8 +69,9 @@ func Group(services *fun.Iterator[*Service]) *Service {
 			}
 
 			wg.Operation().Wait()
-			return ec.Resolve()
+			return nil
 		},
+		Cleanup: func() error { return ec.Resolve() },
 	}
 
 }
